@@ -168,7 +168,15 @@ def eval_word(case):
     arg = sigs.copy() if layout == 'C' else np.asfortranarray(sigs)      # same values, column-major memory layout
     sgn['layout'] = layout
     try:
-        got = compute_features_2d(arg, fs, fr, kw if kind == 'alias' else copy.deepcopy(kw), axis=None)
+        arg_kw = kw if kind == 'alias' else copy.deepcopy(kw)
+        got = compute_features_2d(arg, fs, fr, arg_kw, axis=None)
+        if isinstance(arg_kw, list) and centre == 'trough':
+            # the caller's option list passed a second time (the same objects): the second answer is the one compared below
+            first, got = got, compute_features_2d(arg, fs, fr, arg_kw, axis=None)
+            sgn['second_call_same_list'] = True
+            if len(first) != len(got) or any(diff_tables(a, b) for a, b in zip(first, got)):
+                return VIOL(dict(sgn, kind='epoch-table', col='other', epoch0=False),
+                            'the same call repeated with the same option list gives different epoch tables', observed=obs)
     except Exception as e:      # noqa
         return VIOL(dict(sgn, kind='raise', exc=type(e).__name__, empty_epoch=any(len(r) == 0 for r in ref)),
                     'compute_features_2d(axis=None) raised %s: %s' % (type(e).__name__, str(e)[:120]), observed=obs)
